@@ -6,10 +6,14 @@ sys.path.insert(0, os.path.dirname(__file__))
 import vgen
 V = os.path.dirname(os.path.dirname(os.path.abspath(__file__)))
 out = {}
+loops = {}
 for u in sorted(glob.glob(os.path.join(V, 'units', '*.vu'))):
     name = os.path.basename(u)[:-3]
     g = vgen.Gen(u, repo=os.environ.get('VERIF_REPO', '/repo'))
     g.run()
     out[name] = {f['fn']: f.get('closures', 0) for f in g.functions if f.get('closures', 0)}
+    loops[name] = {f['fn']: f.get('loops', 0) for f in g.functions if f.get('loops', 0)}
 json.dump(out, open(os.path.join(V, 'baseline', 'closures.json'), 'w'), indent=1, sort_keys=True)
+# loop contracts are positional (`//@ loop k`): the number of loops each function has on the pinned tree
+json.dump(loops, open(os.path.join(V, 'baseline', 'loops.json'), 'w'), indent=1, sort_keys=True)
 print({k: v for k, v in out.items() if v})
